@@ -55,9 +55,22 @@ func init() {
 		defer os.RemoveAll(dir)
 		f := filepath.Join(dir, "in.klg")
 		writeFile(f, text)
-		_, _, errs := parser.NewSerialParser().Parse(text)
+		recs, _, errs := parser.NewSerialParser().Parse(text)
+		// --fill walks every day between the first and the last record: only for files spanning a few years
+		minY, maxY := 99999, -1
+		for _, r := range recs {
+			if y := r.Date().Year(); y < minY {
+				minY = y
+			}
+			if y := r.Date().Year(); y > maxY {
+				maxY = y
+			}
+		}
 		n := 0
 		for _, cmd := range readOnlyCommands {
+			if maxY-minY > 3 && strings.Contains(strings.Join(cmd, " "), "--fill") {
+				continue
+			}
 			for _, cpus := range []int{1, 3} {
 				e := &cliEnv{Home: dir, Sticky: true, Clock: []gotime.Time{fixedNoon}, NumCpus: cpus}
 				code, _, errText := runSafely(e, append(append([]string{}, cmd...), f)...)
